@@ -80,6 +80,25 @@ func c07Pair(seed uint64, shape string) *lib.Pair {
 		p.Feat["equal-shares"] = true
 		p.Feat["rename+edit"] = true
 		return p
+	case "tailedit":
+		// same-length files with a few bytes changed close to the end (the add region of the bsdiff series
+		// then runs exactly to the old file's last byte), sizes on and off 32 KiB multiples
+		p := &lib.Pair{Old: lib.NewBuild(), New: lib.NewBuild(), Feat: map[string]bool{}}
+		for i, sz := range []int{r.Range(300, 3000), 32*lib.KB + r.Range(1, 900), 64 * lib.KB, r.Range(70000, 200000)} {
+			d := lib.RandomBytes(int64(sz), r.Uint64())
+			nd := append([]byte(nil), d...)
+			for k := 0; k < 3; k++ {
+				nd[sz-1-r.Intn(min(sz, 600))] ^= byte(1 + r.Intn(200))
+			}
+			if r.Bool() {
+				nd[sz-1] ^= 0x40
+			}
+			name := fmt.Sprintf("tail%d.bin", i)
+			p.Old.PutFile(name, d)
+			p.New.PutFile(name, nd)
+		}
+		p.Feat["tail-edit-same-length"] = true
+		return p
 	case "larger":
 		return lib.GenPair(seed, lib.GenOpts{MaxFile: 1 * lib.MB, MinFiles: 2, MaxFiles: 4})
 	default:
@@ -102,7 +121,7 @@ func c07Cases(tier string, seed uint64, flavor string) []lib.Case {
 	var cases []lib.Case
 	r := lib.NewRng(lib.Mix(seed, 77))
 	for i := 0; i < npairs; i++ {
-		shape := []string{"tiny", "tiny", "generic", "shares", "generic", "larger"}[i%6]
+		shape := []string{"tiny", "tailedit", "generic", "shares", "tiny", "larger"}[i%6]
 		s := c07Spec{PairSeed: lib.Mix(seed, 7, uint64(i)), Shape: shape, InComp: inComps[i%3]}
 		parts := []int{}
 		for p := 0; p <= 16; p++ {
